@@ -40,7 +40,8 @@ def record(seed, estimator="nonparametric"):
     rnd = np.random.default_rng(seed)
     pre, cur = synth.make_election(n=40, states=("AA", "BB"), seed=seed, frac_reporting=0.7, thr=100)
     pre = synth.with_margin_features(pre)
-    est = ("margin",) if estimator == "bootstrap" else ("turnout",)
+    # several estimands: the hidden results of EVERY requested estimand must be invisible, whatever their order
+    est = ("margin",) if estimator == "bootstrap" else [("turnout",), ("turnout", "dem"), ("dem", "turnout")][seed % 3]
     feats = ["baseline_normalized_margin", "x1"] if estimator == "bootstrap" else ["x1"]
     # the historical election: same units, baseline_* = results of the election before it, results_* = its own results
     hist = pre.copy()
